@@ -74,7 +74,14 @@ def counter_bait(rw, target=False):
     return items
 
 
+DEGENERATE = ["POP", "POP POP", "POP POP POP", "SWAP1 POP", "DUP1 POP", "POP PUSH 1 POP", "SWAP1 SWAP1", "PUSH 0 POP", "POP POP PUSH [tag] 3 JUMP"]
+
+
 def gen_text(rw, profile=None, length=None, pseudo=True, target=False):
+    if target and rw.random() < 0.15:
+        # degenerate targets: blocks with (almost) nothing to analyse take the early exits of the front-end, where whatever
+        # an earlier block left behind is not overwritten
+        return rw.choice(DEGENERATE)
     if rw.random() < 0.22:
         return AJ.items_to_text(counter_bait(rw, target), 2)
     if rw.random() < 0.25:
